@@ -70,6 +70,8 @@ type SimNet struct {
 	logFile  *os.File
 	// Extra handlers (HQ service, bucket service) keyed by host
 	Services map[string]func(n *SimNet, c net.Conn, host string)
+	// Dynamic resolves requests for hosts whose content is computed (bucket listings)
+	Dynamic map[string]func(req *http.Request) *Response
 	// OnRequest is called (under no lock) for every request read, before parking
 	OnRequest func(e *OriginEntry)
 }
@@ -274,6 +276,12 @@ func (n *SimNet) serve(c net.Conn, host string) {
 	n.mu.Unlock()
 	res, rp := n.planFor(key, attempt)
 	e.Known = res != nil
+	if rp == nil && n.Dynamic != nil {
+		if dyn := n.Dynamic[hostOnly2(reqHost)]; dyn != nil {
+			rp = dyn(req)
+			e.Known = rp != nil
+		}
+	}
 	if n.OnRequest != nil {
 		n.OnRequest(e)
 	}
